@@ -66,6 +66,94 @@ theorem default_layer_empty_when_filtered_out (r : Request) (d : ALayer) (rest :
   unfold restrictLayers
   simp [List.filter, hsel, hinc, hany]
 
+
+/-! ### the file-level theorem -/
+
+/-- layer directories in `layercontents.plist` are plain names (what norad writes): the name the loaded layer
+    keeps (`file_name()` of the joined path) is the string the filter saw -/
+def PlainLayerDirs (P : Parser β) (fs : FS β) (t : APath) : Prop :=
+  ∀ lc, readParsed fs (sub t "layercontents.plist") P.layercontents "layercontents.plist" = .ok lc →
+    ∀ e ∈ lc, lastName (joinRel (tC t) (Path.parse e.2)) = some e.2
+
+/-- **`partial_eq_restricted_full`** (format-3 trees).  If the full load of `t` succeeds with `f`, then the load with
+    ANY request `r` — six switches, `all` / default-only / arbitrary custom layer predicate — succeeds too and
+    yields exactly `restrict r f`: un-requested parts replaced by their empty defaults (without `lib` the
+    guideline libs go as well), the selected layers in file order behind the default layer, the default layer
+    replaced by the empty placeholder when it was filtered out, un-requested stores empty.
+    Guards: one layer in `glyphs` (C06's invariant), plain layer directory names. -/
+theorem partial_eq_restricted_full (P : Parser β) (fs : FS β) (t : APath) (r : Request) (f : AFont β)
+    (hfull : loadImpl P fs t Request.everything = .ok f)
+    (hone : ∀ x ∈ f.layers.tail, isDefaultLayer x = false)
+    (hplain : PlainLayerDirs P fs t) :
+    loadImpl P fs t r = .ok (restrict r f) := by
+  unfold loadImpl at hfull ⊢
+  cases hs : loadScalars P fs t Request.everything with
+  | error e => simp [hs] at hfull
+  | ok sc =>
+    cases hl : loadLayerSet P fs t Request.everything with
+    | error e => simp [hs, hl] at hfull
+    | ok layers =>
+      cases hd : loadStore Request.everything.data .data fs t with
+      | error e => simp [hs, hl, hd] at hfull
+      | ok data =>
+        cases hi : loadStore Request.everything.images .images fs t with
+        | error e => simp [hs, hl, hd, hi] at hfull
+        | ok images =>
+          simp only [hs, hl, hd, hi] at hfull
+          cases hfull
+          have hd' : loadStore true .data fs t = .ok data := hd
+          have hi' : loadStore true .images fs t = .ok images := hi
+          rw [loadScalars_restrict r hs, loadLayerSet_restrict r hl hone hplain,
+            loadStore_of_true hd' r.data, loadStore_of_true hi' r.images]
+          simp only [restrict, restrictScalars, stripLibs]
+
+/-- **`partial_succeeds_if_full_does`** -/
+theorem partial_succeeds_if_full_does (P : Parser β) (fs : FS β) (t : APath) (r : Request) (f : AFont β)
+    (hfull : loadImpl P fs t Request.everything = .ok f)
+    (hone : ∀ x ∈ f.layers.tail, isDefaultLayer x = false) (hplain : PlainLayerDirs P fs t) :
+    ∃ f', loadImpl P fs t r = .ok f' :=
+  ⟨_, partial_eq_restricted_full P fs t r f hfull hone hplain⟩
+
+
+/-! ### non-vacuity of the file-level theorem -/
+
+def P0 : Parser Nat where
+  metainfo _ := some (3, 1)
+  lib _ := none
+  fontinfo _ := none
+  groups _ := some (2, true)
+  kerning _ := none
+  features _ := none
+  layercontents _ := some [("bg".toList, "glyphs.bg".toList), ("public.default".toList, "glyphs".toList)]
+  contents _ := some []
+  layerinfo _ := none
+  glif _ := none
+
+def fs0 : FS Nat :=
+  [(["t".toList], .dir), (["t".toList, "metainfo.plist".toList], .file 0),
+   (["t".toList, "groups.plist".toList], .file 0),
+   (["t".toList, "layercontents.plist".toList], .file 0),
+   (["t".toList, "glyphs".toList], .dir), (["t".toList, "glyphs".toList, "contents.plist".toList], .file 0),
+   (["t".toList, "glyphs.bg".toList], .dir), (["t".toList, "glyphs.bg".toList, "contents.plist".toList], .file 0)]
+
+def bgOnly : Request :=
+  { lib := false, groups := false, kerning := false, features := false, data := false, images := false,
+    all := false, loadDefault := false, custom := some fun n _ => n == "bg".toList }
+
+/-- the hypotheses are satisfiable, and the conclusion is what one expects: groups gone, the background layer kept,
+    the default layer replaced by the placeholder in front -/
+example : ∃ f, loadImpl P0 fs0 ["t".toList] Request.everything = .ok f ∧
+    (∀ x ∈ f.layers.tail, isDefaultLayer x = false) ∧ PlainLayerDirs P0 fs0 ["t".toList] ∧
+    f.groups = 2 ∧ (restrict bgOnly f).groups = 0 ∧
+    (restrict bgOnly f).layers.map (·.name) = ["public.default".toList, "bg".toList] := by
+  refine ⟨_, rfl, by decide, ?_, rfl, rfl, by decide⟩
+  intro lc h
+  have hrp : readParsed fs0 (sub ["t".toList] "layercontents.plist") P0.layercontents "layercontents.plist" =
+      .ok [("bg".toList, "glyphs.bg".toList), ("public.default".toList, "glyphs".toList)] := by rfl
+  rw [hrp] at h
+  cases h
+  decide
+
 /-! ### non-vacuity: `none().filter_layers(|_,_| true)` on a two-layer font (the repaired defect) -/
 
 def l0 : ALayer := { name := "public.default".toList, dir := "glyphs".toList, info := 0, entries := [] }
